@@ -89,144 +89,97 @@ func c13(c *core.Ctx, r *core.Report) {
 	r.Explanation = "C13 runners: (R1) the call that reaches the runner loop is dominated by the nil-error edge of the (wrapped) Factory.Refresh call, wrappers return nil only if the wrapped call did; (R2) exactly one synchronous invoke site of ApplicationRunner.Run, in a forward range over the sorter's result, whose non-nil error edge leaves the loop with a non-nil error; the runner loop has a single call site outside any loop; (R3) Refresh's creation loop turns every creation error into a non-nil return; (R4) the runner collection field is wired by type. Decides order of phases, single invocation site and stop-at-first-error on all paths; does not decide what a runner does."
 	r.Assumptions = []string{"runner bodies are user code", "App.Run is called once per start by the user"}
 
-	// R2: the invoke site
+	// R2: the invoke site: exactly one, synchronous
 	sites := c.CallSites(func(com *ssa.CallCommon) bool { return core.IsInvoke(com, ro.RunnerRun) })
 	r.Count("runner_invoke_sites", len(sites))
 	if !r.Exactly("C13.R2", "invoke sites of ApplicationRunner.Run", len(sites), 1) {
 		return
 	}
 	site := sites[0]
-	invoker := site.Parent()
-	cons := "Run@" + core.FnName(invoker)
-	call, isCall := site.(*ssa.Call)
-	if !isCall {
-		r.Fail("C13.R2", cons, c.Pos(site.Pos()), "runner is started by go/defer: Run() would not wait for it and its error is lost")
+	if _, isCall := site.(*ssa.Call); !isCall {
+		r.Fail("C13.R2", "Run@"+core.FnName(site.Parent()), c.Pos(site.Pos()), "runner is started by go/defer: Run() would not wait for it and its error is lost")
 		return
 	}
-	rl := core.RangeLoopOf(invoker, site.Block())
-	switch {
-	case rl == nil:
-		r.Fail("C13.R2", cons+":loop", c.Pos(site.Pos()), "runner invoke is not inside a forward range")
-	case core.InnermostLoop(invoker, site.Block()) != nil && len(core.InnermostLoop(invoker, site.Block()).Blocks) < len(rl.Loop.Blocks):
-		r.Fail("C13.R2", cons+":loop", c.Pos(site.Pos()), "runner invoke sits in a nested loop (could run more than once)")
-	case !rl.ElemOf(core.Norm(call.Common().Value)):
-		r.Fail("C13.R2", cons+":loop", c.Pos(site.Pos()), "invoked runner is not the current element of the ranged slice")
-	case !sortedProvenance(c, rl.Slice, ro.Sorter):
-		r.Fail("C13.R2", cons+":loop", c.Pos(site.Pos()), "ranged slice is not the sorter's result")
-	default:
-		// the loop itself must not be nested in another loop
-		nested := false
-		for _, l := range core.Loops(invoker) {
-			if l != rl.Loop && l.Blocks[rl.Header] && l.Header != rl.Header {
-				nested = true
+	// R1/R2: decision table of the start routine
+	var runnerInst *ssa.Function
+	isRefresh := func(com *ssa.CallCommon) bool { return core.IsInvoke(com, ro.FRefresh) }
+	isRun := func(com *ssa.CallCommon) bool { return core.IsInvoke(com, ro.RunnerRun) }
+	subjects := lowestReaching(c, "app", isRefresh, isRun)
+	ar := c.Named("definition", "ApplicationRunner")
+	appT := c.Named("app", "App")
+	if r.Exactly("C13.R1", "start routines (smallest function of package app reaching both Factory.Refresh and ApplicationRunner.Run)", len(subjects), 1) && ar != nil && appT != nil {
+		runFn := subjects[0]
+		field := sliceFieldOf(appT, ar)
+		cons := "run-table@" + core.FnName(runFn)
+		if field == "" || len(runFn.Params) != 1 {
+			r.Undecided("C13.R1", cons, c.FnPos(runFn), "App has no []ApplicationRunner field, or the start routine takes parameters")
+		} else {
+			maxLen := 2
+			if r.Tier == "thorough" {
+				maxLen = 3
+			}
+			rrs, rruns, rund := appRunTable(c, runFn, field, maxLen)
+			r.Count("run_table_runs", rruns)
+			if rund != "" {
+				r.Undecided("C13.R1", cons, c.FnPos(runFn), "abstract interpretation left the model: "+rund)
+			} else {
+				smallModelCheck(c, r, "C13.R2", cons, runFn, int64(maxLen))
+				rrs.report(c, r, runFn, func(row string) string {
+					if row == "phases" {
+						return "C13.R1"
+					}
+					return "C13.R2"
+				}, cons, runRows)
 			}
 		}
-		r.Check(!nested, "C13.R2", cons+":loop", c.Pos(site.Pos()), "each runner is invoked once: single site, current element of a forward range over the sorter's result, loop not nested")
+		// the sorter instance used for the runners
+		seen := map[*ssa.Function]bool{}
+		reachesCall(runFn, func(com *ssa.CallCommon) bool {
+			if cal := com.StaticCallee(); cal != nil && core.IsCallTo(com, ro.Sorter) {
+				runnerInst = cal
+			}
+			return false
+		}, seen)
 	}
-	// stop at first error
-	use := core.ClassifyErr(call)
-	switch use.Class {
-	case core.ErrTested:
-		// additionally: the non-nil edge must not re-enter the loop
-		reenters := false
-		for _, t := range use.Tests {
-			if rl != nil && core.ReachableFrom(t.NonNil, nil)[rl.Header] {
-				reenters = true
+	// the start routine is itself called once, outside loops, synchronously
+	if len(subjects) == 1 {
+		runFn := subjects[0]
+		var callerSites []ssa.CallInstruction
+		for _, fn := range c.Scope {
+			callerSites = append(callerSites, core.CallsMatching(fn, func(com *ssa.CallCommon) bool { return core.IsCallTo(com, runFn) })...)
+		}
+		uses := c.FuncValueUses(runFn)
+		if r.Exactly("C13.R1", "call sites of the start routine "+core.FnName(runFn), len(callerSites)+len(uses), 1) && len(callerSites) == 1 {
+			cs := callerSites[0]
+			_, isCall := cs.(*ssa.Call)
+			r.Check(isCall && !core.InLoop(cs.Block()), "C13.R1", "start-once@"+core.FnName(cs.Parent()), c.Pos(cs.Pos()), "the start routine is called synchronously, outside any loop")
+			if isCall {
+				u := core.ClassifyErr(cs.(*ssa.Call))
+				r.Check(u.Class == core.ErrTested || u.Class == core.ErrReturned, "C13.R1", "start-error@"+core.FnName(cs.Parent()), c.Pos(cs.Pos()), "an error of the start routine becomes Run's error ("+string(u.Class)+" "+u.Detail+")")
 			}
 		}
-		r.Check(!reenters, "C13.R2", cons+":stop-at-error", c.Pos(site.Pos()), "a runner error leaves the loop with a non-nil error (no later runner is invoked)")
-	case core.ErrReturned:
-		r.Hold("C13.R2", cons+":stop-at-error", c.Pos(site.Pos()), "runner error is returned directly")
-	default:
-		pos := c.Pos(site.Pos())
-		if use.Escape != nil {
-			pos = c.Pos(use.Escape.Pos())
-		}
-		r.Fail("C13.R2", cons+":stop-at-error", pos, "runner error is "+string(use.Class)+": "+use.Detail)
-	}
-	// the slice ranged is the collection field (sorter argument loaded from a []ApplicationRunner field)
-	// single caller of the invoker, outside loops
-	var callerSites []ssa.CallInstruction
-	for _, fn := range c.Scope {
-		callerSites = append(callerSites, core.CallsMatching(fn, func(com *ssa.CallCommon) bool { return core.IsCallTo(com, invoker) })...)
-	}
-	uses := c.FuncValueUses(invoker)
-	if !r.Exactly("C13.R1", "call sites of the runner loop "+core.FnName(invoker), len(callerSites)+len(uses), 1) || len(callerSites) != 1 {
-		return
-	}
-	cs := callerSites[0]
-	runFn := cs.Parent()
-	if _, ok := cs.(*ssa.Call); !ok || core.InLoop(cs.Block()) {
-		r.Fail("C13.R1", "runner-phase@"+core.FnName(runFn), c.Pos(cs.Pos()), "runner phase is started by go/defer or inside a loop")
-		return
-	}
-	// R1 gating
-	refreshSite, okWrap, why := callsReachingInvoke(c, runFn, ro.FRefresh, 2)
-	switch {
-	case refreshSite == nil:
-		r.Undecided("C13.R1", "gating@"+core.FnName(runFn), c.FnPos(runFn), "no call reaching Factory.Refresh found in the function that starts the runners")
-	case !okWrap:
-		r.Fail("C13.R1", "gating@"+core.FnName(runFn), c.Pos(refreshSite.Pos()), why)
-	case !core.OnNilErrEdge(refreshSite, cs):
-		r.Fail("C13.R1", "gating@"+core.FnName(runFn), c.Pos(cs.Pos()), "runner phase is not dominated by the nil-error edge of the refresh phase: runners can start although refresh failed or before it ran")
-	default:
-		r.Hold("C13.R1", "gating@"+core.FnName(runFn), c.Pos(cs.Pos()), "runner phase is dominated by the nil-error edge of the call reaching Factory.Refresh; wrappers return nil only if Refresh did")
-	}
-	// also the factory preparation phase precedes and gates
-	if prepSite, okW, w := callsReachingInvoke(c, runFn, ro.FPrepare, 2); prepSite != nil {
-		r.Check(okW && core.OnNilErrEdge(prepSite, cs) && core.OnNilErrEdge(prepSite, refreshSite), "C13.R1", "prepare-gates@"+core.FnName(runFn), c.Pos(prepSite.Pos()),
-			"refresh and runner phases are dominated by the nil-error edge of the call reaching Factory.PrepareComponents "+w)
 	}
 
-	// R3: Refresh implementations
-	fimpls := c.Implementors(c.Iface("container", "Factory"))
-	n := 0
-	for _, T := range fimpls {
-		ref := c.DeclaredMethod(T, "Refresh")
-		if ref == nil {
-			continue
+	// R3: Refresh: decision table (creation errors end refresh with an error; completeness of the eager list)
+	refreshRules(c, r, func(row string) string {
+		if row == "error" || row == "eager-only" {
+			return "C13.R3"
 		}
-		n++
-		accs := ro.CacheAccessors()
-		var creates []*ssa.Call
-		for _, ci := range core.Calls(ref) {
-			if cl, ok := ci.(*ssa.Call); ok {
-				for _, a := range accs {
-					if core.IsCallTo(cl.Common(), a) {
-						creates = append(creates, cl)
-					}
-				}
-				if core.IsInvoke(cl.Common(), ro.FGetComponentByName) {
-					creates = append(creates, cl)
-				}
-			}
-		}
-		cons := "refresh-loop@" + core.FnName(ref)
-		if len(creates) == 0 {
-			r.Undecided("C13.R3", cons, c.FnPos(ref), "no creation call found in Refresh")
-			continue
-		}
-		for _, cl := range creates {
-			c05RefreshLazy(c, r, ref, cl, "C13.R3")
-			u := core.ClassifyErr(cl)
-			r.Check(u.Class == core.ErrTested || u.Class == core.ErrReturned, "C13.R3", cons, c.Pos(cl.Pos()),
-				"a creation error in Refresh becomes a non-nil return ("+string(u.Class)+" "+u.Detail+")")
-		}
-	}
-	r.Floor("C13.R3", "Factory implementations with a Refresh method", n, 1)
+		return ""
+	})
 
 	// R5: the ordering contract itself, for the runner instance of the sorter (C12.R1-R3)
-	if rl != nil {
-		if call, ok := core.Norm(rl.Slice).(*ssa.Call); ok && core.IsCallTo(call.Common(), ro.Sorter) {
-			n := sorterTableFor(c, r, call.Common().StaticCallee(), 2, func(row string) string { return "C13.R5" })
-			r.Count("sorter_abstract_runs", n)
-			if sf := c.Func("util/sort2", "Slice"); sf != nil {
-				c12R4On(c, r, sf, "C13.R5")
-			}
+	if runnerInst != nil {
+		n := sorterTableFor(c, r, runnerInst, 2, func(row string) string { return "C13.R5" })
+		r.Count("sorter_abstract_runs", n)
+		if sf := c.Func("util/sort2", "Slice"); sf != nil {
+			c12R4On(c, r, sf, "C13.R5")
 		}
+	} else {
+		r.Undecided("C13.R5", "sorter-instance", "", "the start routine does not call the ordering helper")
 	}
 	// R4
-	if ar := c.Named("definition", "ApplicationRunner"); ar != nil {
+	if ar != nil {
 		wireByTypeField(c, r, "C13.R4", ar)
 	} else {
 		r.Undecided("C13.R4", "role:ApplicationRunner", "", "definition.ApplicationRunner not found")
